@@ -1,1 +1,78 @@
-/-! # C13 — property theorems (to be filled in) -/
+import JokerVerif.Lemmas.CacheLemmas
+/-!
+# C13 — failures propagate and never leak cache files or damage user files
+
+Property theorems only (model: `Model/Cache.lean`).  Every statement is for every initial file-system state
+`s0`, every temp-file name `f` not already in use, every list of inner steps allowed inside the decorated
+function (`InnerOK`: no temp-file creation / deletion, user paths opened read-only) — of any length — and
+every fault: none, at the creation of the temp file, or at ANY step `k` of the `try` block.
+Crashes that are not Python exceptions (SIGKILL, power loss) are outside model and property.
+-/
+namespace Cache
+
+/-- no temporary file survives the call, whatever the fault position: final `tmp` = initial `tmp` -/
+theorem no_leak (s0 : St) (f : Nat) (hf : f ∉ s0.tmp) (inner : List Step) (h : InnerOK inner) (fl : Fault) :
+    (objectCall s0 f inner fl).1.tmp = s0.tmp := by
+  rw [objectCall_state s0 f hf inner h fl]
+
+/-- a fault yields an exception at the top level (nothing swallows it); no fault yields a value -/
+theorem exception_propagates (s0 : St) (f : Nat) (inner : List Step) (fl : Fault) :
+    ((objectCall s0 f inner fl).2 = true ↔ fl ≠ Fault.none) ∧
+    ((fileCall s0 inner fl).2 = true ↔ fl ≠ Fault.none) := by
+  cases fl <;> simp [objectCall, fileCall, Fault.raised]
+
+/-- user files are only ever opened read-only: the "written" flag is unchanged, for object input (where the
+call never needs the user's file) and for file-name input (where it reads it) -/
+theorem user_file_untouched (s0 : St) (f : Nat) (hf : f ∉ s0.tmp) (inner : List Step) (h : InnerOK inner)
+    (fl : Fault) :
+    (objectCall s0 f inner fl).1.userWritten = s0.userWritten ∧
+    (fileCall s0 inner fl).1.userWritten = s0.userWritten := by
+  rw [objectCall_state s0 f hf inner h fl, fileCall_state s0 inner h fl]
+  exact ⟨rfl, rfl⟩
+
+/-- the machine's post-state equals its pre-state, failing or not: the next call starts exactly where a
+first call would (history independence of the helper itself is C05) -/
+theorem next_call_clean (s0 : St) (f : Nat) (hf : f ∉ s0.tmp) (inner : List Step) (h : InnerOK inner)
+    (fl : Fault) :
+    (objectCall s0 f inner fl).1 = s0 ∧ (fileCall s0 inner fl).1 = s0 :=
+  ⟨objectCall_state s0 f hf inner h fl, fileCall_state s0 inner h fl⟩
+
+/-- trace inclusion, object input: every observed trace (with its "an exception reached the caller" flag)
+that the driver's recogniser accepts is the trace of a model run with allowed inner steps, so the theorems
+above apply to it: replaying the OBSERVED steps from `s0` ends in `s0` -/
+theorem observed_object_trace_is_run (s0 : St) (tr : List Step) (r : Bool) (f : Nat) (inner : List Step)
+    (fl : Fault) (hm : matchObject tr r = some (f, inner, fl)) (hf : f ∉ s0.tmp) :
+    tr.foldl apply s0 = s0 ∧ (objectCall s0 f inner fl).2 = r := by
+  obtain ⟨hok, htr, hr⟩ := matchObject_sound tr r f inner fl hm
+  refine ⟨?_, hr⟩
+  have := objectCall_state s0 f hf inner hok fl
+  unfold objectCall at this
+  rw [htr] at this
+  exact this
+
+/-- trace inclusion, file-name input -/
+theorem observed_file_trace_is_run (s0 : St) (tr : List Step) (r : Bool) (inner : List Step) (fl : Fault)
+    (hm : matchFile tr r = some (inner, fl)) :
+    tr.foldl apply s0 = s0 ∧ (fileCall s0 inner fl).2 = r := by
+  obtain ⟨hok, htr, hr⟩ := matchFile_sound tr r inner fl hm
+  refine ⟨?_, hr⟩
+  have := fileCall_state s0 inner hok fl
+  unfold fileCall at this
+  rw [htr] at this
+  exact this
+
+-- non-vacuity: a realistic inner trace, fault at the third step of the try block, other temp files present
+private def innerEx : List Step :=
+  [.openTemp 7 .ro, .openTemp 7 .ro, .body "read_batch", .body "pool.map", .body "unpack"]
+example : InnerOK innerEx := all_stepOK (by decide)
+example : objectCall ⟨[3, 4], false⟩ 7 innerEx (.step 2) = (⟨[3, 4], false⟩, true) := by decide
+example : objectTrace 7 innerEx (.step 2) = [.mkTemp 7, .writeTemp 7, .openTemp 7 .ro, .openTemp 7 .ro, .unlink 7] := by decide
+example : matchObject [.mkTemp 7, .writeTemp 7, .openTemp 7 .ro, .openTemp 7 .ro, .unlink 7] true
+    = some (7, [.openTemp 7 .ro, .openTemp 7 .ro], .step 2) := by decide
+-- and the recogniser refuses a leaking trace and a trace that opens the user's file writable
+example : matchObject [.mkTemp 7, .writeTemp 7, .body "pool.map"] true = none := by decide
+example : matchFile [.openUser 1 .ro, .openUser 1 .rw] false = none := by decide
+-- without the `finally` the state is NOT restored (the theorem is not trivially true of any machine)
+example : ([Step.mkTemp 7, .writeTemp 7, .body "pool.map"].foldl apply ⟨[3], false⟩).tmp = [7, 3] := by decide
+
+end Cache
